@@ -64,16 +64,19 @@ Definition expander_python : expander :=
 
 Inductive step := StChar (bytes : list nat) | StName (id : list nat) | StNum (n : N) | StError.
 
-(* Expander::exec: the sequence of steps fed to the callback *)
+(* Expander::exec: the sequence of steps fed to the callback.  The template is valid UTF-8
+   (a Rust &str), so a character equals the (ASCII) substitution character iff its lead byte
+   does; the iteration steps by the announced length of the lead byte. *)
 Fixpoint exec_steps (x : expander) (fuel : nat) (s : list nat) : list step :=
   match fuel with
   | 0 => []
   | S f =>
-      match decode_at s 0 with
-      | None => []
-      | Some (cp, len) =>
+      match s with
+      | [] => []
+      | b :: _ =>
+          let len := cp_len b in
           let tail := skipn len s in
-          if cp =? sub_char x then
+          if b =? sub_char x then
             if starts_with tail [sub_char x] then
               StChar [sub_char x] :: exec_steps x f (skipn 1 tail)
             else
